@@ -128,13 +128,15 @@ ShapingClause(t, cmp) ==
             THEN <<"shaping:specification-shaping-of-projections-differs", 0>>
        ELSE None
 
-(* named deviation NotdefOutlineDropped: with notdef_glyph and without notdef_outline glyph 0 is emptied by design *)
+(* named deviation NotdefOutlineDropped: with notdef_glyph and without notdef_outline (the default) glyph 0 is emptied by
+   design (glyf / CFF prune_pre_subset), and with the outline goes its gvar entry (gvar.prune_pre_subset), phantom-point
+   deltas included: in a font without HVAR that is the advance variation of glyph 0.  Its hmtx advance is kept. *)
 Exempt(t, g) == g = 1 /\ t.opts.notdef /\ ~t.opts.ndoutline
 KeptClause(t) ==
   LET ka == FirstBad(t.kept, LAMBDA r : r.adv[1] = r.adv[2])
       kl == FirstBad(t.kept, LAMBDA r : Exempt(t, r.g) \/ r.lsb[1] = r.lsb[2])
       ko == FirstBad(t.kept, LAMBDA r : Exempt(t, r.g) \/ \A j \in 1..Len(r.loc) : r.loc[j][1] = r.loc[j][2])
-      kv == FirstBad(t.kept, LAMBDA r : \A j \in 1..Len(r.loc) : r.loc[j][3] = r.loc[j][4])
+      kv == FirstBad(t.kept, LAMBDA r : Exempt(t, r.g) \/ \A j \in 1..Len(r.loc) : r.loc[j][3] = r.loc[j][4])
       kc == FirstBad(t.kept, LAMBDA r : r.g \notin Stg("gsubed") \/ r.cls[1] = r.cls[2])    \* layout tables cover glyphs_gsubed
   IN IF ka # 0 THEN <<"kept:advance-width-changed", t.kept[ka].g>>
      ELSE IF kl # 0 THEN <<"kept:side-bearing-changed", t.kept[kl].g>>
